@@ -55,7 +55,7 @@ impl Axecutor {
                 if (result & 0x80 != (d as u16) & 0x80) && (result & 0x80 != (s as u16) & 0x80) { FLAG_OF } else { 0 } |
                 if result & 0x100 != 0 { FLAG_CF } else { 0 }
             )
-        }; (set: FLAG_SF | FLAG_ZF | FLAG_PF; clear: FLAG_CF)]
+        }; (set: FLAG_SF | FLAG_ZF | FLAG_PF; clear: FLAG_OF | FLAG_CF)]
     }
 
     /// ADC r/m16, r16
@@ -73,7 +73,7 @@ impl Axecutor {
                 if (result & 0x8000 != (d as u32) & 0x8000) && (result & 0x8000 != (s as u32) & 0x8000) { FLAG_OF } else { 0 } |
                 if result & 0x10000 != 0 { FLAG_CF } else { 0 }
             )
-        }; (set: FLAG_SF | FLAG_ZF | FLAG_PF; clear: FLAG_CF)]
+        }; (set: FLAG_SF | FLAG_ZF | FLAG_PF; clear: FLAG_OF | FLAG_CF)]
     }
 
     /// ADC r/m32, r32
@@ -91,7 +91,7 @@ impl Axecutor {
                 if (result & 0x80000000 != (d as u64) & 0x80000000) && (result & 0x80000000 != (s as u64) & 0x80000000) { FLAG_OF } else { 0 } |
                 if result & 0x100000000 != 0 { FLAG_CF } else { 0 }
             )
-        }; (set: FLAG_SF | FLAG_ZF | FLAG_PF; clear: FLAG_CF)]
+        }; (set: FLAG_SF | FLAG_ZF | FLAG_PF; clear: FLAG_OF | FLAG_CF)]
     }
 
     /// ADC r/m64, r64
